@@ -26,7 +26,8 @@ p!(c09_offers_n0_k1, 4, h::c09_offers_step::<0, 1, 1>());
 p!(c09_offers_n1_k1, 4, h::c09_offers_step::<1, 2, 1>());
 p!(c09_offers_n1_k2, 4, h::c09_offers_step::<1, 2, 2>());
 p!(c09_offer_one, 4, h::c09_offer_one());
-p!(c08_announce_lean, 4, h::c08_announce_lean());
+p!(c08_announce_lean_same, 4, h::c08_announce_lean(true));
+p!(c08_announce_lean_fresh, 4, h::c08_announce_lean(false));
 p!(c09_answer_lean, 4, h::c09_answer_lean());
 p!(c09_offer_lean, 4, h::c09_offer_lean());
 p!(c09_answer_n0, 4, h::c09_answer_step::<0, 1>());
